@@ -146,7 +146,7 @@ def run_indices(pid, tier, base_seed, indices, workers, budget_s,
         for p in list(getattr(ex, '_processes', {}).values()):
             try:
                 if p.is_alive():
-                    p.terminate()
+                    p.kill()
             except Exception:
                 pass
         ex.shutdown(wait=False, cancel_futures=True)
